@@ -124,6 +124,26 @@ class BV:
         return r
 
     def _addsub(self, o, sign, desc, lb):
+        if o.is_const():
+            c = o.k1
+            known = self.k0 | self.k1
+            single = c & (c - 1) == 0
+            ar = self.arith + ((("+" if sign > 0 else "-"), desc, lb, c),)
+            if single and sign < 0 and (self.k1 & c):
+                # subtracting 2^k from a value whose bit k is 1: clears the bit, no borrow
+                r = BV(self.w, self.k0 | c, self.k1 & ~c, self.om & ~c, self.nm & ~c, self.ors, ar)
+                r.gm = self.gm & ~c
+                return r
+            if single and sign > 0 and (self.k0 & c):
+                r = BV(self.w, self.k0 & ~c, self.k1 | c, self.om & ~c, self.nm & ~c, self.ors, ar)
+                r.gm = self.gm & ~c
+                return r
+            hi = mask(self.w) & ~mask(lb)
+            if (known & hi) == hi:
+                # every bit from the lowest addend bit upward is known: exact
+                v = ((self.k1 & hi) + sign * c) & mask(self.w) & hi
+                low = mask(lb)
+                return BV(self.w, (self.k0 & low) | (hi & ~v), (self.k1 & low) | v, self.om & low, self.nm & low, self.ors, ar)
         lb2 = lowbit(self.maybe1())
         # bits below the lowest possibly-set bit of the addend are unchanged
         low = mask(lb)
